@@ -21,6 +21,11 @@ import (
 
 func (r *Run) prioRealCase(t *testing.T, sc PrioRealScenario) *prioRealResult {
 	res := runPrioReal(sc)
+	if res.Stuck != "" {
+		// real clock: only a stall that repeats counts (as inconclusive: liveness is not decided here)
+		r.Count("real.stalls_seen_once_and_replayed", 1)
+		res = runPrioReal(sc)
+	}
 	r.Eval(1)
 	if res.Rejected != "" {
 		r.Count("rejected_by_constructor", 1)
@@ -133,6 +138,10 @@ func TestC20(t *testing.T) {
 
 func bareCase(r *Run, sc PrioRealScenario) {
 	res := runPrioBare(sc)
+	if res.Stuck != "" {
+		r.Count("real.stalls_seen_once_and_replayed", 1)
+		res = runPrioBare(sc)
+	}
 	r.Eval(1)
 	switch {
 	case res.Rejected:
